@@ -16,114 +16,126 @@ variable {α : Type}
 
 /-! ### The declarative rules -/
 
-/-- **Difficulty rule** for child `i` of the anchor `node r cs`: the child's heaviest descendant
-    chain is the heaviest among all children (the code breaks exact ties towards the child that
-    arrived last), carries at least `d r * thr` accumulated difficulty, and leads every sibling by
-    at least as much. -/
-def DifficultyRule (d : α → Nat) (thr : Nat) (r : α) (cs : List (Tree α)) (i : Nat) : Prop :=
-  ∃ c, cs[i]? = some c ∧
-    (∀ (j : Nat) (c' : Tree α), cs[j]? = some c' → diffDepth d c' ≤ diffDepth d c) ∧
-    (∀ (j : Nat) (c' : Tree α), cs[j]? = some c' → diffDepth d c' = diffDepth d c → j ≤ i) ∧
-    diffDepth d c ≥ d r * thr ∧
-    (∀ (j : Nat) (c' : Tree α), j ≠ i → cs[j]? = some c' →
-      diffDepth d c - diffDepth d c' ≥ d r * thr)
+/-- Spelled-out form of `Btc.PrefTo`: child `c` at index `i` is preferred to child `c'` at index
+    `j` (or is the same child). -/
+theorem prefTo_iff (d : α → Nat) (c : Tree α) (i : Nat) (c' : Tree α) (j : Nat) :
+    PrefTo d c i c' j ↔
+      (diffDepth d c' < diffDepth d c ∨
+        (diffDepth d c' = diffDepth d c ∧
+          (mainChainLen d c' < mainChainLen d c ∨
+            (mainChainLen d c' = mainChainLen d c ∧ i ≤ j)))) := Iff.rfl
 
-/-- `i2` is the runner-up with respect to `i`: the heaviest (last among equals) child other
+/-- Spelled-out form of `Btc.Preferred`: child `i` has the greatest
+    `(difficulty-based depth, length of its own main chain)` and is the first among the children
+    that tie on both – the tie-break of `main_chain_by_difficulty`. -/
+theorem preferred_iff (d : α → Nat) (cs : List (Tree α)) (i : Nat) :
+    Preferred d cs i ↔
+      ∃ c, cs[i]? = some c ∧
+        ∀ (j : Nat) (c' : Tree α), cs[j]? = some c' → PrefTo d c i c' j := Iff.rfl
+
+/-- `i2` is the runner-up with respect to `i`: the preferred child among the children other
     than `i`. (Spelled-out form of `Btc.RunnerUp`.) -/
 theorem runnerUp_iff (d : α → Nat) (cs : List (Tree α)) (i i2 : Nat) :
     RunnerUp d cs i i2 ↔
       i2 ≠ i ∧ ∃ c2, cs[i2]? = some c2 ∧
-        (∀ (j : Nat) (c' : Tree α), j ≠ i → cs[j]? = some c' → diffDepth d c' ≤ diffDepth d c2) ∧
-        (∀ (j : Nat) (c' : Tree α), j ≠ i → cs[j]? = some c' →
-          diffDepth d c' = diffDepth d c2 → j ≤ i2) := Iff.rfl
+        ∀ (j : Nat) (c' : Tree α), j ≠ i → cs[j]? = some c' → PrefTo d c2 i2 c' j := Iff.rfl
 
-/-- **Depth rule** (testnet/regtest escape hatch) for child `i`: the child that is heaviest by
-    difficulty-based depth (last among equals) has a longest chain of at least `bound` blocks, and
-    that exceeds the longest chain of the runner-up (the heaviest, last among equals, of the other
-    children; depth `0` if there is no other child) by at least `bound`. The subtraction is
-    truncated, exactly like the code's `saturating_sub`. -/
-def DepthRule (d : α → Nat) (bound : Nat) (cs : List (Tree α)) (i : Nat) : Prop :=
+/-- **Difficulty rule** for child `i` of the anchor `node r cs`: child `i` is the preferred child
+    (heaviest descendant chain; ties broken like the served chain), its heaviest chain carries at
+    least `d r * thr` accumulated difficulty, and leads every sibling by at least as much. -/
+def DifficultyRule (d : α → Nat) (thr : Nat) (r : α) (cs : List (Tree α)) (i : Nat) : Prop :=
+  Preferred d cs i ∧
   ∃ c, cs[i]? = some c ∧
-    (∀ (j : Nat) (c' : Tree α), cs[j]? = some c' → diffDepth d c' ≤ diffDepth d c) ∧
-    (∀ (j : Nat) (c' : Tree α), cs[j]? = some c' → diffDepth d c' = diffDepth d c → j ≤ i) ∧
+    diffDepth d c ≥ d r * thr ∧
+    (∀ (j : Nat) (c' : Tree α), j ≠ i → cs[j]? = some c' →
+      diffDepth d c - diffDepth d c' ≥ d r * thr)
+
+/-- **Depth rule** (testnet/regtest escape hatch) for child `i`: the preferred child has a longest
+    chain of at least `bound` blocks, and that exceeds the longest chain of the runner-up (the
+    preferred child among the others; depth `0` if there is no other child) by at least `bound`.
+    The subtraction is truncated, exactly like the code's `saturating_sub`. -/
+def DepthRule (d : α → Nat) (bound : Nat) (cs : List (Tree α)) (i : Nat) : Prop :=
+  Preferred d cs i ∧
+  ∃ c, cs[i]? = some c ∧
     depth c ≥ bound ∧
     (∀ (i2 : Nat) (c2 : Tree α), RunnerUp d cs i i2 → cs[i2]? = some c2 →
       depth c - depth c2 ≥ bound)
 
-theorem DifficultyRule.heaviest {d : α → Nat} {thr : Nat} {r : α} {cs : List (Tree α)} {i : Nat}
-    (h : DifficultyRule d thr r cs i) : Heaviest d cs i := by
-  obtain ⟨c, hc, hmax, hlast, _⟩ := h
-  exact ⟨c, hc, hmax, hlast⟩
+theorem DifficultyRule.preferred {d : α → Nat} {thr : Nat} {r : α} {cs : List (Tree α)} {i : Nat}
+    (h : DifficultyRule d thr r cs i) : Preferred d cs i := h.1
 
-theorem DepthRule.heaviest {d : α → Nat} {bound : Nat} {cs : List (Tree α)} {i : Nat}
-    (h : DepthRule d bound cs i) : Heaviest d cs i := by
-  obtain ⟨c, hc, hmax, hlast, _⟩ := h
-  exact ⟨c, hc, hmax, hlast⟩
+theorem DepthRule.preferred {d : α → Nat} {bound : Nat} {cs : List (Tree α)} {i : Nat}
+    (h : DepthRule d bound cs i) : Preferred d cs i := h.1
+
+/-- the selected child is in particular the heaviest one -/
+theorem DifficultyRule.heaviest {d : α → Nat} {thr : Nat} {r : α} {cs : List (Tree α)} {i : Nat}
+    {c : Tree α} (h : DifficultyRule d thr r cs i) (hc : cs[i]? = some c) :
+    ∀ (j : Nat) (c' : Tree α), cs[j]? = some c' → diffDepth d c' ≤ diffDepth d c :=
+  h.1.heaviest hc
 
 /-! ### Linking the sorted list to the rules -/
 
 theorem difficultyRule_of_desc (d : α → Nat) (thr : Nat) (r : α) (cs : List (Tree α))
-    (K i : Nat) (rest : List (Nat × Nat)) (h : descKeys d cs = (K, i) :: rest) :
-    (K ≥ d r * thr ∧ ∀ K2 i2 r', rest = (K2, i2) :: r' → K - K2 ≥ d r * thr) ↔
+    (K L i : Nat) (rest : List Entry) (h : descKeys d cs = ((K, L), i) :: rest) :
+    (K ≥ d r * thr ∧ ∀ K2 L2 i2 r', rest = ((K2, L2), i2) :: r' → K - K2 ≥ d r * thr) ↔
       DifficultyRule d thr r cs i := by
-  obtain ⟨hH, ⟨c, hc, hK⟩, hnil, hcons⟩ := descKeys_cons d cs K i rest h
+  obtain ⟨hH, ⟨c, hc, hK⟩, hnil, hcons⟩ := descKeys_cons d cs K L i rest h
   unfold DifficultyRule
   generalize d r * thr = T
   constructor
   · rintro ⟨hK1, hlead⟩
-    obtain ⟨c', hc', hmax, hlast⟩ := hH
-    rw [hc] at hc'; cases hc'
-    refine ⟨c, hc, hmax, hlast, by omega, ?_⟩
+    refine ⟨hH, c, hc, by omega, ?_⟩
     intro j cj hj hcj
     cases rest with
     | nil => rw [hnil rfl j hj] at hcj; cases hcj
     | cons x r' =>
-      obtain ⟨K2, i2⟩ := x
-      obtain ⟨⟨_, c2, hc2, hmax2, _⟩, hle, c2', hc2', hK2⟩ := hcons K2 i2 r' rfl
+      obtain ⟨⟨K2, L2⟩, i2⟩ := x
+      obtain ⟨⟨_, c2, hc2, hp2⟩, hle, c2', hc2', hK2⟩ := hcons K2 L2 i2 r' rfl
       rw [hc2] at hc2'; cases hc2'
-      have := hmax2 j cj hj hcj
-      have := hlead K2 i2 r' rfl
+      have := hp2 j cj hj hcj
+      have := hlead K2 L2 i2 r' rfl
+      unfold PrefTo at *
       omega
-  · rintro ⟨c', hc', hmax, hlast, hthr, hlead⟩
+  · rintro ⟨_, c', hc', hthr, hlead⟩
     rw [hc] at hc'; cases hc'
     refine ⟨by omega, ?_⟩
-    intro K2 i2 r' hr
-    obtain ⟨⟨hne, _⟩, hle, c2, hc2, hK2⟩ := hcons K2 i2 r' hr
+    intro K2 L2 i2 r' hr
+    obtain ⟨⟨hne, _⟩, hle, c2, hc2, hK2⟩ := hcons K2 L2 i2 r' hr
     have := hlead i2 c2 hne hc2
     omega
 
 theorem depthRule_of_desc (d : α → Nat) (bound : Nat) (cs : List (Tree α))
-    (K i : Nat) (rest : List (Nat × Nat)) (h : descKeys d cs = (K, i) :: rest) :
+    (K L i : Nat) (rest : List Entry) (h : descKeys d cs = ((K, L), i) :: rest) :
     (nthDepth cs i ≥ bound ∧ nthDepth cs i - secondDepth cs rest ≥ bound) ↔
       DepthRule d bound cs i := by
-  obtain ⟨hH, ⟨c, hc, hK⟩, hnil, hcons⟩ := descKeys_cons d cs K i rest h
+  obtain ⟨hH, ⟨c, hc, hK⟩, hnil, hcons⟩ := descKeys_cons d cs K L i rest h
   have hnd : nthDepth cs i = depth c := by simp only [nthDepth, hc]
   rw [hnd]
   constructor
   · rintro ⟨h1, h2⟩
-    obtain ⟨c', hc', hmax, hlast⟩ := hH
-    rw [hc] at hc'; cases hc'
-    refine ⟨c, hc, hmax, hlast, h1, ?_⟩
+    refine ⟨hH, c, hc, h1, ?_⟩
     intro i2' c2' hru hc2'
     cases rest with
     | nil => rw [hnil rfl i2' hru.1] at hc2'; cases hc2'
     | cons x r' =>
-      obtain ⟨K2, i2⟩ := x
-      obtain ⟨hru2, _, _⟩ := hcons K2 i2 r' rfl
+      obtain ⟨⟨K2, L2⟩, i2⟩ := x
+      obtain ⟨hru2, _, _⟩ := hcons K2 L2 i2 r' rfl
       have := RunnerUp.unique hru hru2
       subst this
-      have : secondDepth cs ((K2, i2') :: r') = depth c2' := by simp only [secondDepth, nthDepth, hc2']
+      have : secondDepth cs (((K2, L2), i2') :: r') = depth c2' := by
+        simp only [secondDepth, nthDepth, hc2']
       rw [this] at h2
       exact h2
-  · rintro ⟨c', hc', _, _, hb, hsec⟩
+  · rintro ⟨_, c', hc', hb, hsec⟩
     rw [hc] at hc'; cases hc'
     refine ⟨hb, ?_⟩
     cases rest with
     | nil => simp only [secondDepth]; omega
     | cons x r' =>
-      obtain ⟨K2, i2⟩ := x
-      obtain ⟨hru2, _, c2, hc2, _⟩ := hcons K2 i2 r' rfl
-      have : secondDepth cs ((K2, i2) :: r') = depth c2 := by simp only [secondDepth, nthDepth, hc2]
+      obtain ⟨⟨K2, L2⟩, i2⟩ := x
+      obtain ⟨hru2, _, c2, hc2, _⟩ := hcons K2 L2 i2 r' rfl
+      have : secondDepth cs (((K2, L2), i2) :: r') = depth c2 := by
+        simp only [secondDepth, nthDepth, hc2]
       rw [this]
       exact hsec i2 c2 hru2 hc2
 
@@ -142,22 +154,22 @@ theorem stableChild_eq_some_iff (d : α → Nat) (net : Net) (thr bound : Nat) (
     subst hcs
     constructor
     · intro h; cases h
-    · rintro (⟨c, hc, _⟩ | ⟨_, c, hc, _⟩) <;> simp at hc
+    · rintro (⟨_, c, hc, _⟩ | ⟨_, _, c, hc, _⟩) <;> simp at hc
   | cons x rest =>
-    obtain ⟨K, i0⟩ := x
-    rw [stableChild_of_cons d net thr bound r cs K i0 rest hdk i,
-      difficultyRule_of_desc d thr r cs K i0 rest hdk]
-    have hD := depthRule_of_desc d bound cs K i0 rest hdk
-    have hH := (descKeys_cons d cs K i0 rest hdk).1
+    obtain ⟨⟨K, L⟩, i0⟩ := x
+    rw [stableChild_of_cons d net thr bound r cs K L i0 rest hdk i,
+      difficultyRule_of_desc d thr r cs K L i0 rest hdk]
+    have hD := depthRule_of_desc d bound cs K L i0 rest hdk
+    have hH := (descKeys_cons d cs K L i0 rest hdk).1
     constructor
     · rintro ⟨rfl, ⟨hn, h⟩ | h⟩
       · exact Or.inr ⟨hn, hD.1 h⟩
       · exact Or.inl h
     · rintro (h | h)
-      · have := Heaviest.unique h.heaviest hH
+      · have := Preferred.unique h.preferred hH
         subst this
         exact ⟨rfl, Or.inr h⟩
-      · have := Heaviest.unique h.2.heaviest hH
+      · have := Preferred.unique h.2.preferred hH
         subst this
         exact ⟨rfl, Or.inl ⟨h.1, hD.2 h.2⟩⟩
 
@@ -209,34 +221,52 @@ theorem stableChild_complete (d : α → Nat) (net : Net) (thr bound : Nat) (r :
 theorem rule_unique (d : α → Nat) (thr bound : Nat) (r : α) (cs : List (Tree α)) (i j : Nat)
     (hi : DifficultyRule d thr r cs i ∨ DepthRule d bound cs i)
     (hj : DifficultyRule d thr r cs j ∨ DepthRule d bound cs j) : i = j := by
-  have h1 : Heaviest d cs i := hi.elim (·.heaviest) (·.heaviest)
-  have h2 : Heaviest d cs j := hj.elim (·.heaviest) (·.heaviest)
-  exact Heaviest.unique h1 h2
+  have h1 : Preferred d cs i := hi.elim (·.preferred) (·.preferred)
+  have h2 : Preferred d cs j := hj.elim (·.preferred) (·.preferred)
+  exact Preferred.unique h1 h2
 
-/-- With a positive normalised threshold, the lead condition makes the heaviest child *strictly*
-    heaviest: the tie-break among equals never matters for the difficulty rule. -/
+/-- With a positive normalised threshold, the lead condition makes the selected child *strictly*
+    heaviest: the tie-break never matters for the difficulty rule. -/
 theorem difficultyRule_strict (d : α → Nat) (thr : Nat) (r : α) (cs : List (Tree α)) (i : Nat)
     (hpos : 0 < d r * thr) (h : DifficultyRule d thr r cs i) :
     ∃ c, cs[i]? = some c ∧
       ∀ (j : Nat) (c' : Tree α), j ≠ i → cs[j]? = some c' → diffDepth d c' < diffDepth d c := by
-  obtain ⟨c, hc, _, _, _, hlead⟩ := h
+  obtain ⟨_, c, hc, _, hlead⟩ := h
   refine ⟨c, hc, ?_⟩
   intro j c' hj hc'
   have := hlead j c' hj hc'
   omega
 
-/-- A runner-up exists as soon as the heaviest child has a sibling, so the last clause of
+/-- The stable child always names an existing child (the `index out of range` arm of the model's
+    `pop` is dead code). -/
+theorem stableChild_index_valid (d : α → Nat) (net : Net) (thr bound : Nat) (r : α)
+    (cs : List (Tree α)) (i : Nat) (h : stableChild d net thr bound (.node r cs) = some i) :
+    ∃ c, cs[i]? = some c := by
+  rcases (stableChild_eq_some_iff d net thr bound r cs i).1 h with ⟨_, c, hc, _⟩ | ⟨_, _, c, hc, _⟩
+  · exact ⟨c, hc⟩
+  · exact ⟨c, hc⟩
+
+/-- A preferred child exists as soon as there is a child. -/
+theorem preferred_exists (d : α → Nat) (cs : List (Tree α)) (hne : cs ≠ []) :
+    ∃ i, Preferred d cs i := by
+  cases hdk : descKeys d cs with
+  | nil => exact absurd (descKeys_nil d cs hdk) hne
+  | cons x rest =>
+    obtain ⟨⟨K, L⟩, i0⟩ := x
+    exact ⟨i0, (descKeys_cons d cs K L i0 rest hdk).1⟩
+
+/-- A runner-up exists as soon as the preferred child has a sibling, so the last clause of
     `DepthRule` is not vacuous. -/
-theorem runnerUp_exists (d : α → Nat) (cs : List (Tree α)) (i : Nat) (hH : Heaviest d cs i)
+theorem runnerUp_exists (d : α → Nat) (cs : List (Tree α)) (i : Nat) (hH : Preferred d cs i)
     (hlen : 2 ≤ cs.length) : ∃ i2, RunnerUp d cs i i2 := by
   cases hdk : descKeys d cs with
   | nil =>
     have := descKeys_nil d cs hdk
     subst this; simp at hlen
   | cons x rest =>
-    obtain ⟨K, i0⟩ := x
-    obtain ⟨hH0, _, hnil, hcons⟩ := descKeys_cons d cs K i0 rest hdk
-    have := Heaviest.unique hH hH0
+    obtain ⟨⟨K, L⟩, i0⟩ := x
+    obtain ⟨hH0, _, hnil, hcons⟩ := descKeys_cons d cs K L i0 rest hdk
+    have := Preferred.unique hH hH0
     subst this
     cases rest with
     | nil =>
@@ -245,10 +275,10 @@ theorem runnerUp_exists (d : α → Nat) (cs : List (Tree α)) (i : Nat) (hH : H
       simp at hl
       omega
     | cons y r' =>
-      obtain ⟨K2, i2⟩ := y
-      exact ⟨i2, (hcons K2 i2 r' rfl).1⟩
+      obtain ⟨⟨K2, L2⟩, i2⟩ := y
+      exact ⟨i2, (hcons K2 L2 i2 r' rfl).1⟩
 
-/-! ### The new anchor lies on the served chain (difficulty rule) -/
+/-! ### The new anchor lies on the served chain (both rules, all networks) -/
 
 /-- The accumulated difficulty of the served chain is the difficulty-based depth of the tree
     (the maximum root-to-leaf accumulated difficulty). -/
@@ -264,6 +294,33 @@ theorem mainChain_sum_eq_diffDepth (d : α → Nat) (t : Tree α) :
   rw [mainChainInner_eq]
   exact h
 
+/-- The sort key of a child is the `(difficulty, length)` of the chain served below it. -/
+theorem childKey_is_main_chain_key (d : α → Nat) (c : Tree α) :
+    childKey d c = (sumD d (mainChain d c), (mainChain d c).length) := by
+  rw [← childKey_eq, mainChainInner_eq]
+  unfold mainChain
+  rw [mainChainInner_eq]
+  rfl
+
+/-- **The preferred child is the second block of the served chain** (`main_chain_by_difficulty`
+    follows exactly the child that `get_stable_child` ranks last after sorting). -/
+theorem preferred_on_main_chain (d : α → Nat) (r : α) (cs : List (Tree α)) (i : Nat) (c : Tree α)
+    (h : Preferred d cs i) (hc : cs[i]? = some c) :
+    (mainChain d (.node r cs))[1]? = some c.root := by
+  obtain ⟨c0, hc0, hp⟩ := h
+  rw [hc] at hc0; cases hc0
+  exact mainChain_second_of_preferred d r cs i c hc hp
+
+/-- **The new anchor always lies on the chain being served** – every network, both rules, no tie
+    hypothesis. -/
+theorem stableChild_on_main_chain (d : α → Nat) (net : Net) (thr bound : Nat) (r : α)
+    (cs : List (Tree α)) (i : Nat) (c : Tree α)
+    (h : stableChild d net thr bound (.node r cs) = some i) (hc : cs[i]? = some c) :
+    (mainChain d (.node r cs))[1]? = some c.root := by
+  have hr := (stableChild_eq_some_iff d net thr bound r cs i).1 h
+  have hH : Preferred d cs i := hr.elim (·.preferred) (·.2.preferred)
+  exact preferred_on_main_chain d r cs i c hH hc
+
 /-- A strictly heaviest child is the second block of the served chain. -/
 theorem strictly_heaviest_child_on_main_chain (d : α → Nat) (r : α) (cs : List (Tree α))
     (i : Nat) (c : Tree α) (hc : cs[i]? = some c)
@@ -271,41 +328,18 @@ theorem strictly_heaviest_child_on_main_chain (d : α → Nat) (r : α) (cs : Li
     (mainChain d (.node r cs))[1]? = some c.root :=
   mainChain_second_of_strict d r cs i c hc hlt
 
-/-- **Difficulty rule ⇒ the new anchor is on the chain being served.** -/
+/-- Difficulty rule ⇒ the new anchor is on the chain being served (no positivity hypothesis
+    is needed any more). -/
 theorem difficultyRule_on_main_chain (d : α → Nat) (thr : Nat) (r : α) (cs : List (Tree α))
-    (i : Nat) (c : Tree α) (hpos : 0 < d r * thr) (h : DifficultyRule d thr r cs i)
-    (hc : cs[i]? = some c) :
-    (mainChain d (.node r cs))[1]? = some c.root := by
-  obtain ⟨c', hc', hlt⟩ := difficultyRule_strict d thr r cs i hpos h
-  rw [hc] at hc'; cases hc'
-  exact mainChain_second_of_strict d r cs i c hc hlt
+    (i : Nat) (c : Tree α) (h : DifficultyRule d thr r cs i) (hc : cs[i]? = some c) :
+    (mainChain d (.node r cs))[1]? = some c.root :=
+  preferred_on_main_chain d r cs i c h.preferred hc
 
-/-- Mainnet corollary, stated on the code's decision function. -/
-theorem stableChild_mainnet_on_main_chain (d : α → Nat) (thr bound : Nat) (r : α)
-    (cs : List (Tree α)) (i : Nat) (hpos : 0 < d r * thr)
-    (h : stableChild d .mainnet thr bound (.node r cs) = some i) :
-    ∃ c, cs[i]? = some c ∧ (mainChain d (.node r cs))[1]? = some c.root := by
-  have hr := (stableChild_mainnet_iff d thr bound r cs i).1 h
-  obtain ⟨c, hc, _⟩ := id hr
-  exact ⟨c, hc, difficultyRule_on_main_chain d thr r cs i c hpos hr hc⟩
-
-/-- On any network: if the selected child is *strictly* heaviest (no exact difficulty tie with a
-    sibling), it is on the served chain – the depth rule can only leave the served chain through
-    an exact tie (see `depth_rule_can_leave_served_chain`). -/
-theorem stableChild_on_main_chain_of_no_tie (d : α → Nat) (net : Net) (thr bound : Nat) (r : α)
-    (cs : List (Tree α)) (i : Nat)
-    (h : stableChild d net thr bound (.node r cs) = some i)
-    (hnotie : ∀ (a b : Nat) (ca cb : Tree α), a ≠ b → cs[a]? = some ca → cs[b]? = some cb →
-      diffDepth d ca ≠ diffDepth d cb) :
-    ∃ c, cs[i]? = some c ∧ (mainChain d (.node r cs))[1]? = some c.root := by
-  have hr := (stableChild_eq_some_iff d net thr bound r cs i).1 h
-  have hH : Heaviest d cs i := hr.elim (·.heaviest) (·.2.heaviest)
-  obtain ⟨c, hc, hmax, _⟩ := hH
-  refine ⟨c, hc, mainChain_second_of_strict d r cs i c hc ?_⟩
-  intro j c' hj hc'
-  have := hmax j c' hc'
-  have := hnotie j i c' c hj hc' hc
-  omega
+/-- Depth rule ⇒ the new anchor is on the chain being served. -/
+theorem depthRule_on_main_chain (d : α → Nat) (bound : Nat) (r : α) (cs : List (Tree α))
+    (i : Nat) (c : Tree α) (h : DepthRule d bound cs i) (hc : cs[i]? = some c) :
+    (mainChain d (.node r cs))[1]? = some c.root :=
+  preferred_on_main_chain d r cs i c h.preferred hc
 
 /-! ### State level: `peek` / `pop` -/
 
@@ -364,16 +398,6 @@ theorem pop_none_iff (bound : BoundFn) (u : Unstable) (sh : Nat) (r : CBlock)
     all_goals simp
 
 open Unstable in
-/-- the `index out of range` arm of the model's `pop` is dead code: the selected index always
-    names an existing child -/
-theorem stableChild_index_valid (d : α → Nat) (net : Net) (thr bound : Nat) (r : α)
-    (cs : List (Tree α)) (i : Nat) (h : stableChild d net thr bound (.node r cs) = some i) :
-    ∃ c, cs[i]? = some c := by
-  rcases (stableChild_eq_some_iff d net thr bound r cs i).1 h with ⟨c, hc, _⟩ | ⟨_, c, hc, _⟩
-  · exact ⟨c, hc⟩
-  · exact ⟨c, hc⟩
-
-open Unstable in
 /-- `peek` announces the anchor exactly when `pop` would advance it. -/
 theorem peek_eq_some_iff (bound : BoundFn) (u : Unstable) (r : CBlock)
     (cs : List (Tree CBlock)) (ht : u.tree = .node r cs) (b : CBlock) :
@@ -404,6 +428,18 @@ theorem peek_eq_some_iff (bound : BoundFn) (u : Unstable) (r : CBlock)
     · intro hb; exact hb.1.symm
 
 open Unstable in
+/-- **State level: the new anchor is on the served chain.** When `pop` advances, the root of the
+    new tree is the second block of the chain `get_main_chain` was serving (all networks). -/
+theorem pop_new_anchor_on_main_chain (bound : BoundFn) (u u' : Unstable) (sh : Nat) (b : Block)
+    (h : u.pop bound sh = .ok u' b) :
+    (u.mainChain)[1]? = some u'.tree.root := by
+  obtain ⟨r, cs, i, ht, hc, _, hrule⟩ := pop_ok_spec bound u u' sh b h
+  have hH : Preferred CBlock.diff cs i := hrule.elim (·.preferred) (·.2.preferred)
+  unfold Unstable.mainChain
+  rw [ht]
+  exact preferred_on_main_chain CBlock.diff r cs i u'.tree hH hc
+
+open Unstable in
 /-- Ingesting a block never discards anything and never moves the anchor: every block of the old
     tree is still in the new tree, in the same relative order. Together with `pop_ok_spec`
     (the only transition that shrinks the tree) this is "blocks of losing forks are discarded only
@@ -427,46 +463,58 @@ theorem push_keeps_blocks (u u' : Unstable) (utxos : UtxoSet) (b : Block)
         rw [← h]
         exact extend_blocks_sublist _ _ _ _ _ he
 
-/-! ### A known finding: under the *depth* rule the selected child may be off the served chain -/
+/-! ### Regression examples: the former counterexamples
+
+Before the fix of `get_stable_child` (sort key = difficulty-based depth only, stable sort, last
+entry wins) the depth rule selected child 2 of `tieTree` / child 1 of `tieTree2` while the served
+chain went through child 0. With the composite key the preferred child is the one on the served
+chain. -/
 
 /-- (hash, difficulty). Children of the anchor in arrival order: `A` = 4 blocks of difficulty 1,
     `B` = 1 block of difficulty 4, `C` = 3 blocks of difficulties 1,1,2. All three have
-    difficulty-based depth 4. -/
+    difficulty-based depth 4; `A` has the longest main chain and is served. -/
 def tieTree : Tree (Nat × Nat) :=
   .node (0, 100)
     [ .node (1, 1) [.node (2, 1) [.node (3, 1) [.node (4, 1) []]]],
       .node (5, 4) [],
       .node (6, 1) [.node (7, 1) [.node (8, 2) []]] ]
 
-/-- Three children tie on accumulated difficulty. The stable sort puts the last arrival `C`
-    (index 2) on top and `B` second; `C` is 3 deep, `B` is 1 deep, so with `bound = 2` the regtest
-    depth rule fires and selects `C` – while every endpoint serves the chain through `A`
-    (equal difficulty, longer, received first). -/
-theorem depth_rule_can_leave_served_chain :
-    stableChild (·.2) .regtest 1 2 tieTree = some 2 ∧
+/-- sorted keys of `tieTree`: `B`, then `C`, then `A` on top -/
+example : sortStable (childKeys (·.2) tieTree.children) = [((4, 1), 1), ((4, 3), 2), ((4, 4), 0)] := by
+  decide
+
+/-- With `bound = 2` the preferred child `A` (depth 4) leads the runner-up `C` (depth 3) by only
+    1 block: no advance (the old code answered `some 2`, a child off the served chain). -/
+theorem tieTree_regression_bound2 :
+    stableChild (·.2) .regtest 1 2 tieTree = none ∧
     ((mainChain (·.2) tieTree)[1]?).map (·.1) = some 1 := by decide
 
-/-- The same happens with only two children: `A` = (1, 4), `B` = 1 followed by a heavy leaf 4 and
-    a light 3-block tail. Both weigh 5; `B` is deeper by 2, so it is selected, but the heaviest
-    path inside `B` is as long as `A`'s, and `A` came first. -/
+/-- With `bound = 1` the depth rule fires – for the child that is on the served chain. -/
+theorem tieTree_regression_bound1 :
+    stableChild (·.2) .regtest 1 1 tieTree = some 0 ∧
+    ((mainChain (·.2) tieTree)[1]?).map (·.1) = some 1 := by decide
+
+/-- Two children: `A` = (1, 4), `B` = 1 followed by a heavy leaf 4 and a light 3-block tail.
+    Both weigh 5 and both have a main chain of 2 blocks; `A` came first and is served. -/
 def tieTree2 : Tree (Nat × Nat) :=
   .node (0, 100)
     [ .node (1, 1) [.node (2, 4) []],
       .node (3, 1) [.node (4, 4) [], .node (5, 1) [.node (6, 1) [.node (7, 1) []]]] ]
 
-theorem depth_rule_can_leave_served_chain_two_children :
-    stableChild (·.2) .regtest 1 2 tieTree2 = some 1 ∧
+/-- The old code answered `some 1` (child `B`, off the served chain); now `A` is preferred and,
+    being shallower than `B`, does not satisfy the depth rule. -/
+theorem tieTree2_regression :
+    stableChild (·.2) .regtest 1 2 tieTree2 = none ∧
     ((mainChain (·.2) tieTree2)[1]?).map (·.1) = some 1 := by decide
 
-/-- The hypothesis `0 < d r * thr` of `difficultyRule_on_main_chain` is necessary: with a zero
-    stability threshold (or a zero anchor difficulty) every lead is "enough", two tied children are
-    resolved towards the last one by the sort and towards the first one by the served chain. -/
-theorem zero_threshold_can_leave_served_chain :
-    stableChild (·.2) .mainnet 0 2 (.node (0, 1) [.node (1, 1) [], .node (2, 1) []]) = some 1 ∧
+/-- Zero threshold, two exactly tied children: the old code selected the last one (child 1) while
+    the served chain goes through child 0; now the first one is selected. -/
+theorem zero_threshold_regression :
+    stableChild (·.2) .mainnet 0 2 (.node (0, 1) [.node (1, 1) [], .node (2, 1) []]) = some 0 ∧
     ((mainChain (·.2) (.node (0, 1) [.node (1, 1) [], .node (2, 1) []]))[1]?).map (·.1) = some 1 := by
   decide
 
-/-- On mainnet the same trees are simply not stable. -/
+/-- On mainnet `tieTree` is not stable. -/
 example : stableChild (·.2) .mainnet 1 2 tieTree = none := by decide
 
 /-! ### Non-vacuity -/
@@ -489,16 +537,23 @@ example : DifficultyRule (·.2) 3 (0, 2) exStable.children 0 :=
 example : ∀ i, ¬ DifficultyRule (·.2) 3 (0, 2) exUnstable.children i := fun i =>
   ((stableChild_eq_none_iff (·.2) .mainnet 3 100 (0, 2) exUnstable.children).1 (by decide) i).1
 
-/-- the depth rule holds for child 2 of `tieTree` although the difficulty rule does not -/
-example : DepthRule (·.2) 2 tieTree.children 2 ∧ ¬ DifficultyRule (·.2) 1 (0, 100) tieTree.children 2 := by
-  have h1 := (stableChild_eq_some_iff (·.2) .regtest 1 2 (0, 100) tieTree.children 2).1 (by decide)
-  have h2 := ((stableChild_eq_none_iff (·.2) .mainnet 1 2 (0, 100) tieTree.children).1 (by decide) 2).1
+/-- the depth rule holds for child 0 of `tieTree` (bound 1) although the difficulty rule does not -/
+example : DepthRule (·.2) 1 tieTree.children 0 ∧ ¬ DifficultyRule (·.2) 1 (0, 100) tieTree.children 0 := by
+  have h1 := (stableChild_eq_some_iff (·.2) .regtest 1 1 (0, 100) tieTree.children 0).1 (by decide)
+  have h2 := ((stableChild_eq_none_iff (·.2) .mainnet 1 1 (0, 100) tieTree.children).1 (by decide) 0).1
   rcases h1 with h1 | h1
   · exact absurd h1 h2
   · exact ⟨h1.2, h2⟩
 
-/-- sorting example: equal keys keep arrival order, so the *last* of the equal maxima is on top -/
-example : sortStable [(4, 0), (4, 1), (2, 2), (4, 3), (1, 4)] = [(1, 4), (2, 2), (4, 0), (4, 1), (4, 3)] := by
+/-- `Preferred` with a genuine tie: child 0 of `tieTree` (tie on difficulty, longest main chain) -/
+example : Preferred (·.2) tieTree.children 0 :=
+  ((stableChild_eq_some_iff (·.2) .regtest 1 1 (0, 100) tieTree.children 0).1 (by decide)).elim
+    (·.preferred) (·.2.preferred)
+
+/-- sorting example: ascending by (dbd, len), and by *descending* index among exact ties, so the
+    first of the tied maxima ends up last -/
+example : sortStable [((4, 2), 0), ((4, 2), 1), ((2, 9), 2), ((4, 1), 3), ((4, 2), 4)] =
+    [((2, 9), 2), ((4, 1), 3), ((4, 2), 4), ((4, 2), 1), ((4, 2), 0)] := by
   decide
 
 end Btc.Props.C03
